@@ -134,7 +134,7 @@ def key_chain(rng, steps, j):
 
 def mutate_key(rng, steps):
     """malformed / off-by-one / surplus / truncated keys around a valid one"""
-    m = rng.randint(0, 7)
+    m = rng.randint(0, 10)
     names = [name_of(s) for s in steps]
     idx = [s[0] for s in steps]
     if m == 0 and steps:      # out of range index at some level
@@ -166,6 +166,24 @@ def mutate_key(rng, steps):
     if m == 7 and steps:      # packed with surplus bits
         w = packed_word(steps + [(rng.randint(0, 1), None, 2)])
         return dict(k="packed", w=str(w)) if w else key_names(names + ["0"])
+    if m == 8:                # a chain whose first source runs past the node (surplus keys / bits) and whose second source is empty
+        extra = [rng.choice(["0", "a", "f0", "1"]) for _ in range(rng.randint(1, 2))]
+        a = key_names(names + extra)
+        if rng.random() < 0.4:
+            w = packed_word(steps + [(rng.randint(0, 1), None, 2)])
+            if w:
+                a = dict(k="packed", w=str(w))
+        return dict(k="chain", a=a, b=rng.choice([key_ints([]), key_names([]), key_path([], 47)]))
+    if m == 9 and steps:      # a chain split inside the key with surplus keys in the second source
+        j = rng.randrange(len(steps) + 1)
+        return dict(k="chain", a=key_repr(rng, steps[:j], rng.choice(["ints", "names", "path"])), b=key_names(names[j:] + [rng.choice(["0", "a"])]))
+    if m == 10 and steps:     # a packed key that ends inside the bit group of its last level
+        w = packed_word(steps)
+        width = bits_for(steps[-1][2] - 1)
+        if w and width > 1:
+            p = (w & -w).bit_length() - 1
+            k = rng.randint(1, width - 1)
+            return dict(k="packed", w=str(((w >> (p + k + 1)) << (p + k + 1)) | (1 << (p + k))))
     return key_repr(rng, steps)
 
 
